@@ -227,6 +227,16 @@ pub fn replay(case: &Value) -> Vec<Violation> {
             let Ok(t) = serde_json::from_value::<Transform>(case["transform"].clone()) else { return vec![] };
             transform_case(n, rich, zod, t).0
         }
+        "padding" => {
+            let (_, body) = padding_body();
+            let pad = case["pad"].as_u64().unwrap_or(0) as usize;
+            let (base, other) = (padding_output(&body, 0), padding_output(&body, pad));
+            if base != other {
+                vec![mk("layout-noise-changes-output", &[("transform", "leading-comment-in-large-file".to_string()), ("files", "1".to_string()), ("mode", "zod".to_string())], format!("a leading comment of {} bytes changes the output: {}", pad, first_diff(&base, &other)), case.clone(), 1)]
+            } else {
+                vec![]
+            }
+        }
         // the whole CLI case again: with the hash seeds owned it is deterministic
         "cli" => cli_case(n, zod, case["hash_seed"].as_u64().map(|k| k + 1).unwrap_or(16), case["mapped"].as_bool().unwrap_or(false)).0,
         _ => vec![],
@@ -279,6 +289,23 @@ fn transform_case(n: usize, rich: bool, zod: bool, t: Transform) -> (Vec<Violati
         }
     }
     (vs, 2)
+}
+
+/// the large-file family: (the multi-byte text, the file body that uses it three times)
+fn padding_body() -> (String, String) {
+    let wide = "ダウンロード完了😀ダウンロード完了😀ダウンロード完了😀".to_string();
+    let body = format!(
+        "{}#[derive(Debug, Clone, Serialize, Deserialize)]\npub struct Wide {{\n    #[serde(rename = \"{w}\")]\n    pub a: i32,\n}}\n#[tauri::command]\npub fn wide(w: Wide) -> Wide {{ w }}\npub fn fire(app: &AppHandle) {{ app.emit(\"{w}\", 1).unwrap(); }}\n",
+        HEADER,
+        w = wide
+    );
+    (wide, body)
+}
+
+/// output for the body behind a leading comment of `pad` dashes ("//" + dashes + newline)
+fn padding_output(body: &str, pad: usize) -> BTreeMap<String, String> {
+    let text = format!("//{}\n{}", "-".repeat(pad), body);
+    out_map(&run_lib(&Project { files: vec![("src/lib.rs".into(), text)], links: vec![] }, &Cfg::mode(true), &Schedule::default()))
 }
 
 /// CLI seam: verbosity and visualisation must not change the binding files; repeated fresh
@@ -468,18 +495,10 @@ pub fn run(tier: Tier) -> CheckResult {
     // 4-byte characters (an event name, a serde rename, a validator message) across byte offsets
     // 8192 and 16384 of the source file; the output must not depend on the comment
     {
-        let wide = "ダウンロード完了😀ダウンロード完了😀ダウンロード完了😀";
-        let body = format!(
-            "{}#[derive(Debug, Clone, Serialize, Deserialize)]\npub struct Wide {{\n    #[serde(rename = \"{w}\")]\n    pub a: i32,\n}}\n#[tauri::command]\npub fn wide(w: Wide) -> Wide {{ w }}\npub fn fire(app: &AppHandle) {{ app.emit(\"{w}\", 1).unwrap(); }}\n",
-            HEADER,
-            w = wide
-        );
+        let (wide, body) = padding_body();
+        let wide = wide.as_str();
         let occurrences: Vec<usize> = body.match_indices(wide).map(|(i, _)| i).collect();
-        let gen = |pad: usize| -> BTreeMap<String, String> {
-            // "//" + pad dashes + newline: the body starts at byte pad + 3
-            let text = format!("//{}\n{}", "-".repeat(pad), body);
-            out_map(&run_lib(&Project { files: vec![("src/lib.rs".into(), text)], links: vec![] }, &Cfg::mode(true), &Schedule::default()))
-        };
+        let gen = |pad: usize| padding_output(&body, pad);
         let baseline = gen(0);
         let mut pads: Vec<usize> = vec![];
         for boundary in [8192usize, 16384] {
